@@ -28,6 +28,38 @@ pub enum Ty {
     VFn(Box<Ty>, Box<Ty>),
     /// value-level universal type `forall (X : VType) . T` with T a value type
     VAll(TV, Box<Ty>),
+    /// a named component `(l :: T)` (label index into LABELS)
+    Named(u8, Box<Ty>),
+}
+pub const LABELS: [&str; 3] = ["a", "b", "c"];
+fn named(l: u8, t: Ty) -> Ty {
+    Ty::Named(l, Box::new(t))
+}
+/// every occurrence of the field `l` in the transparent named / product structure of `t`:
+/// (route through the products: false = first component, true = second; payload type)
+pub fn find_field(t: &Ty, l: u8) -> Vec<(Vec<bool>, Ty)> {
+    fn go(t: &Ty, l: u8, route: &mut Vec<bool>, out: &mut Vec<(Vec<bool>, Ty)>) {
+        match expand_t(t) {
+            | Ty::Named(m, inner) => {
+                if m == l {
+                    out.push((route.clone(), (*inner).clone()));
+                }
+                go(&inner, l, route, out);
+            }
+            | Ty::Pair(a, b) => {
+                route.push(false);
+                go(&a, l, route, out);
+                route.pop();
+                route.push(true);
+                go(&b, l, route, out);
+                route.pop();
+            }
+            | _ => {}
+        }
+    }
+    let mut out = vec![];
+    go(t, l, &mut vec![], &mut out);
+    out
 }
 #[derive(Clone, Debug, PartialEq, Eq, Hash, PartialOrd, Ord)]
 pub enum CTy {
@@ -103,6 +135,7 @@ fn subst_t(t: &Ty, x: TV, with: &Ty) -> Ty {
         | Ty::Pair(a, b) => pair(subst_t(a, x, with), subst_t(b, x, with)),
         | Ty::App(k, a) => Ty::App(*k, Box::new(subst_t(a, x, with))),
         | Ty::VFn(a, b) => vfn(subst_t(a, x, with), subst_t(b, x, with)),
+        | Ty::Named(l, a) => named(*l, subst_t(a, x, with)),
         | Ty::VAll(y, b) if *y == x => Ty::VAll(*y, b.clone()),
         | Ty::VAll(y, b) => {
             let mut fv = BTreeSet::new();
@@ -162,7 +195,7 @@ fn ftv_t(t: &Ty, out: &mut BTreeSet<TV>) {
             ftv_t(a, out);
             ftv_t(b, out);
         }
-        | Ty::App(_, a) => ftv_t(a, out),
+        | Ty::App(_, a) | Ty::Named(_, a) => ftv_t(a, out),
         | Ty::VFn(a, b) => {
             ftv_t(a, out);
             ftv_t(b, out);
@@ -214,6 +247,7 @@ pub fn aeq_t(a: &Ty, b: &Ty, m: &mut Vec<(TV, TV)>) -> bool {
             r
         }
         | (Ty::VFn(a1, b1), Ty::VFn(a2, b2)) => aeq_t(a1, a2, m) && aeq_t(b1, b2, m),
+        | (Ty::Named(l1, a1), Ty::Named(l2, a2)) => l1 == l2 && aeq_t(a1, a2, m),
         | _ => false,
     }
 }
@@ -258,6 +292,10 @@ pub enum Val {
     /// value-level type abstraction `fn (X : VType) => v` and application `f T`
     VTLam(TV, Box<Val>),
     VTApp(Box<Val>, Ty),
+    /// `(l = v)`
+    Named(u8, Box<Val>),
+    /// `v/l` with the resolved route through the receiver's products
+    Proj(Box<Val>, u8, Vec<bool>),
 }
 #[derive(Clone, Debug, PartialEq, Eq, Hash)]
 pub enum Cmp {
@@ -275,6 +313,9 @@ pub enum Cmp {
     Unpack(TV, Var, Val, Box<Cmp>),
     /// `let (a, b) = v in c`
     LetPair(Var, Var, Val, Box<Cmp>),
+    /// `let (/X = T; /l = x; ..) = p in c`: a group of projection patterns on a record or on an
+    /// existential package (opened once; the witness selected — (binder label, bound name) — or anonymous)
+    Open(Option<(TV, TV)>, Vec<(u8, Vec<bool>, Var)>, Val, Box<Cmp>),
 }
 
 /* ------------------------------- reference checker ------------------------------- */
@@ -283,6 +324,8 @@ pub enum Cmp {
 pub struct Scope {
     pub vars: Vec<(Var, Ty)>,
     pub tvs: Vec<TV>,
+    /// witnesses opened without a name: in scope, but no annotation can mention them
+    pub anon: Vec<TV>,
 }
 impl Scope {
     fn with_var(&self, x: Var, t: Ty) -> Scope {
@@ -295,6 +338,14 @@ impl Scope {
         s.tvs.push(x);
         s
     }
+    fn with_anon(&self, x: TV) -> Scope {
+        let mut s = self.clone();
+        s.anon.push(x);
+        s
+    }
+    fn fresh_anon(&self) -> TV {
+        3000 + (self.tvs.len() + self.anon.len()) as TV
+    }
     fn lookup(&self, x: Var) -> Option<&Ty> {
         self.vars.iter().rev().find(|(y, _)| *y == x).map(|(_, t)| t)
     }
@@ -304,7 +355,7 @@ fn wf_t(s: &Scope, t: &Ty) -> Result<(), String> {
     let mut fv = BTreeSet::new();
     ftv_t(t, &mut fv);
     for x in fv {
-        if !s.tvs.contains(&x) {
+        if !s.tvs.contains(&x) && !s.anon.contains(&x) {
             return Err(format!("type variable T{x} is not in scope"));
         }
     }
@@ -341,6 +392,19 @@ pub fn synth_v(s: &Scope, v: &Val) -> Result<Ty, String> {
             }
             | other => return Err(format!("value type application of a value of type {}", show_t(&other))),
         },
+        | Val::Named(l, v) => named(*l, synth_v(s, v)?),
+        | Val::Proj(v, l, route) => {
+            let t = synth_v(s, v)?;
+            let found = find_field(&t, *l);
+            match found.as_slice() {
+                | [(r, payload)] => {
+                    assert!(r == route, "stale projection route in the harness AST");
+                    payload.clone()
+                }
+                | [] => return Err(format!("no field {} in {}", LABELS[*l as usize], show_t(&t))),
+                | _ => return Err(format!("ambiguous field {} in {}", LABELS[*l as usize], show_t(&t))),
+            }
+        }
     })
 }
 /// checking mode for the one form that needs it
@@ -422,12 +486,40 @@ pub fn synth_c(s: &Scope, c: &Cmp) -> Result<CTy, String> {
                 }
                 r
             }
+            // `let (X, y) = pair` is an ordinary pair pattern with a capitalised variable
+            | other @ Ty::Pair(..) => return Err(format!("UNCLASSIFIED: unpacking a value of type {}", show_t(&other))),
             | other => return Err(format!("unpacking a value of type {}", show_t(&other))),
         },
         | Cmp::LetPair(x, y, v, b) => match expand_t(&synth_v(s, v)?) {
             | Ty::Pair(a, c) => synth_c(&s.with_var(*x, *a).with_var(*y, *c), b)?,
+            // `let (x, y) = package` is the language's unpacking with a lower-case type binder
+            | other @ Ty::Ex(..) => return Err(format!("UNCLASSIFIED: pair pattern on a value of type {}", show_t(&other))),
             | other => return Err(format!("pair pattern on a value of type {}", show_t(&other))),
         },
+        | Cmp::Open(w, fields, p, b) => {
+            let (s2, body_ty, witness) = open_scope(s, w, &synth_v(s, p)?)?;
+            let mut s3 = s2;
+            for (l, route, x) in fields {
+                let found = find_field(&body_ty, *l);
+                match found.as_slice() {
+                    | [(r, payload)] => {
+                        assert!(r == route, "stale projection route in the harness AST");
+                        s3 = s3.with_var(*x, payload.clone());
+                    }
+                    | [] => return Err(format!("no field {} in {}", LABELS[*l as usize], show_t(&body_ty))),
+                    | _ => return Err(format!("ambiguous field {} in {}", LABELS[*l as usize], show_t(&body_ty))),
+                }
+            }
+            let r = synth_c(&s3, b)?;
+            if let Some(wv) = witness {
+                let mut fv = BTreeSet::new();
+                ftv_c(&r, &mut fv);
+                if fv.contains(&wv) {
+                    return Err(format!("the abstract type T{wv} escapes in {}", show_c(&r)));
+                }
+            }
+            r
+        }
         | Cmp::Match(v, c1, c2) => {
             let t = expand_t(&synth_v(s, v)?);
             if t != Ty::Two {
@@ -441,6 +533,24 @@ pub fn synth_c(s: &Scope, c: &Cmp) -> Result<CTy, String> {
             t1
         }
     })
+}
+
+/// the scope, the record type and the witness variable inside a group of projection patterns on a value of type `t`
+fn open_scope(s: &Scope, w: &Option<(TV, TV)>, t: &Ty) -> Result<(Scope, Ty, Option<TV>), String> {
+    match (expand_t(t), w) {
+        | (Ty::Ex(z, body), Some((label, x))) => {
+            if *label != z {
+                return Err(format!("no type field T{label} in the package"));
+            }
+            Ok((s.with_tv(*x), subst_t(&body, z, &Ty::Var(*x)), Some(*x)))
+        }
+        | (Ty::Ex(z, body), None) => {
+            let a = s.fresh_anon();
+            Ok((s.with_anon(a), subst_t(&body, z, &Ty::Var(a)), Some(a)))
+        }
+        | (other, Some((label, _))) => Err(format!("no type field T{label} in {}", show_t(&other))),
+        | (other, None) => Ok((s.clone(), other, None)),
+    }
 }
 
 /* ------------------------------- erasure evaluator ------------------------------- */
@@ -503,7 +613,25 @@ pub fn eval(c: &Cmp, mut fuel: u64) -> Result<String, String> {
                 | RV::VTClosure(b, e) => value(&b, &e)?,
                 | other => return Err(format!("STUCK: value type application of {}", show_rv(&other))),
             },
+            // names are erased
+            | Val::Named(_, v) => value(v, env)?,
+            | Val::Proj(v, _, route) => follow(value(v, env)?, route)?,
         })
+    }
+    fn follow(mut rv: RV, route: &[bool]) -> Result<RV, String> {
+        for step in route {
+            rv = match rv {
+                | RV::Pair(a, b) => {
+                    if *step {
+                        *b
+                    } else {
+                        *a
+                    }
+                }
+                | other => return Err(format!("STUCK: projection from {}", show_rv(&other))),
+            };
+        }
+        Ok(rv)
     }
     loop {
         if fuel == 0 {
@@ -575,6 +703,13 @@ pub fn eval(c: &Cmp, mut fuel: u64) -> Result<String, String> {
                 }
                 | other => return Err(format!("STUCK: pair pattern on {}", show_rv(&other))),
             },
+            | Cmp::Open(_, fields, p, b) => {
+                let rv = value(p, &env)?;
+                for (_, route, x) in fields {
+                    env = env.update(*x, follow(rv.clone(), route)?);
+                }
+                cur = Rc::new((**b).clone());
+            }
         }
     }
 }
@@ -592,6 +727,7 @@ pub fn show_t(t: &Ty) -> String {
         | Ty::App(k, a) => format!("{} {}", operators()[*k].0, show_t_atom(a)),
         | Ty::VFn(a, b) => format!("{} -> {}", show_t_arrow_param(a), show_t_arrow_cod(b)),
         | Ty::VAll(x, b) => format!("forall ({} : VType) . {}", tv_name(*x), show_t(b)),
+        | Ty::Named(l, a) => format!("({} :: {})", LABELS[*l as usize], show_t_atom_arrow(a)),
     }
 }
 fn show_t_arrow_param(t: &Ty) -> String {
@@ -656,6 +792,7 @@ fn inline_t(t: &Ty) -> Ty {
         | Ty::App(..) => inline_t(&expand_t(t)),
         | Ty::VFn(a, b) => vfn(inline_t(a), inline_t(b)),
         | Ty::VAll(x, b) => vall(*x, inline_t(b)),
+        | Ty::Named(l, a) => named(*l, inline_t(a)),
         | o => o.clone(),
     }
 }
@@ -693,6 +830,8 @@ fn pv(v: &Val, inline: bool) -> String {
             let ts = if matches!(t, Ty::Int | Ty::Two | Ty::Var(_)) { ts } else { format!("({ts})") };
             format!("({} {})", pv(f, inline), ts)
         }
+        | Val::Named(l, v) => format!("({} = {})", LABELS[*l as usize], pv(v, inline)),
+        | Val::Proj(v, l, _) => format!("({}/{})", pv(v, inline), LABELS[*l as usize]),
     }
 }
 fn pt(t: &Ty, inline: bool) -> String {
@@ -709,7 +848,7 @@ pub fn pc(c: &Cmp, inline: bool) -> String {
         | Cmp::Ret(v) => format!("ret {}", pv(v, inline)),
         | Cmp::Do(x, t, c1, c2) => {
             let a = match c1.as_ref() {
-                | Cmp::Do(..) | Cmp::Let(..) | Cmp::Fn(..) | Cmp::TFn(..) | Cmp::Match(..) | Cmp::Unpack(..) | Cmp::LetPair(..) => format!("({})", pc(c1, inline)),
+                | Cmp::Do(..) | Cmp::Let(..) | Cmp::Fn(..) | Cmp::TFn(..) | Cmp::Match(..) | Cmp::Unpack(..) | Cmp::LetPair(..) | Cmp::Open(..) => format!("({})", pc(c1, inline)),
                 | _ => pc(c1, inline),
             };
             format!("do (v{x} : {}) <- {a}; {}", pt(t, inline), pc(c2, inline))
@@ -727,6 +866,14 @@ pub fn pc(c: &Cmp, inline: bool) -> String {
         | Cmp::Match(v, c1, c2) => format!("match {} | +A() => {} | +B() => {} end", pv(v, inline), pc(c1, inline), pc(c2, inline)),
         | Cmp::Unpack(x, y, p, b) => format!("let ({}, v{y}) = {} in {}", tv_name(*x), pv(p, inline), pc(b, inline)),
         | Cmp::LetPair(x, y, v, b) => format!("let (v{x}, v{y}) = {} in {}", pv(v, inline), pc(b, inline)),
+        | Cmp::Open(w, fields, p, b) => {
+            let mut members: Vec<String> = vec![];
+            if let Some((label, x)) = w {
+                members.push(format!("/{} = {}", tv_name(*label), tv_name(*x)));
+            }
+            members.extend(fields.iter().map(|(l, _, x)| format!("/{} = v{x}", LABELS[*l as usize])));
+            format!("let ({}) = {} in {}", members.join("; "), pv(p, inline), pc(b, inline))
+        }
     }
 }
 pub fn program(c: &Cmp, inline: bool) -> String {
@@ -752,7 +899,7 @@ pub fn innermost_only(c: &Cmp) -> bool {
             | Ty::Var(x) => *x >= 1000 || st.last() == Some(x),
             | Ty::Thk(c) => ct(c, st),
             | Ty::Pair(a, b) => t(a, st) && t(b, st),
-            | Ty::App(_, a) => t(a, st),
+            | Ty::App(_, a) | Ty::Named(_, a) => t(a, st),
             | Ty::VFn(a, b) => t(a, st) && t(b, st),
             | Ty::Ex(x, b) | Ty::VAll(x, b) => {
                 st.push(*x);
@@ -790,6 +937,7 @@ pub fn innermost_only(c: &Cmp) -> bool {
                 r
             }
             | Val::VTApp(f, ty) => v(f, st) && t(ty, st),
+            | Val::Named(_, a) | Val::Proj(a, _, _) => v(a, st),
             | _ => true,
         }
     }
@@ -818,6 +966,20 @@ pub fn innermost_only(c: &Cmp) -> bool {
                 r
             }
             | Cmp::LetPair(_, _, x, b) => v(x, st) && go(b, st),
+            | Cmp::Open(w, _, p, b) => {
+                if !v(p, st) {
+                    return false;
+                }
+                match w {
+                    | Some((_, x)) => {
+                        st.push(*x);
+                        let r = go(b, st);
+                        st.pop();
+                        r
+                    }
+                    | None => go(b, st),
+                }
+            }
         }
     }
     go(c, &mut vec![])
@@ -840,6 +1002,11 @@ pub struct Gen {
     /// value-level (pure) functions: `A -> B` and `forall X . T` as value types, with abstraction and
     /// application inside values (instead of the other menus)
     pub vfun: bool,
+    /// records: named components, projection, groups of projection patterns, packages with named
+    /// fields (instead of the other menus)
+    pub rec: bool,
+    /// with `rec`: offer only the package type in the let menu (deeper programs at the same budget)
+    pub rec_box: bool,
     /// set by the `let` generator for the value directly under the annotation (packages need one)
     pub pack_ok: std::cell::Cell<bool>,
 }
@@ -873,6 +1040,22 @@ impl Gen {
     /// annotation menu for let-bound thunks in this scope
     fn let_menu(&self, s: &Scope) -> Vec<Ty> {
         let z = 500 + s.tvs.len() as TV; // binder id reserved for menu types at this depth
+        if self.rec {
+            // an abstract data type with named fields
+            let boxed = ex(z, pair(named(0, Ty::Var(z)), named(1, thk(func(Ty::Var(z), ret(Ty::Int))))));
+            if self.rec_box {
+                return vec![boxed];
+            }
+            return vec![
+                // a flat record
+                pair(named(0, Ty::Int), named(1, Ty::Two)),
+                boxed,
+                // a record nested in a named component on the left
+                pair(named(2, pair(named(0, Ty::Int), Ty::Int)), named(1, Ty::Two)),
+                // the label a occurs twice: projection is ambiguous, positional access works
+                pair(named(0, Ty::Int), named(0, Ty::Two)),
+            ];
+        }
         if self.vfun {
             let mut m = vec![vfn(Ty::Int, Ty::Int), vfn(Ty::Two, Ty::Int), vfn(Ty::Int, vfn(Ty::Int, Ty::Int)), vall(z, vfn(Ty::Var(z), Ty::Var(z))), vfn(vfn(Ty::Int, Ty::Int), Ty::Int), vfn(Ty::Int, thk(ret(Ty::Int))), pair(Ty::Int, Ty::Two)];
             for x in &s.tvs {
@@ -925,6 +1108,7 @@ impl Gen {
         if n == 1 {
             out.extend(self.vars_of(s, t).into_iter().map(Val::Var));
             match t {
+                | Ty::Int if self.rec => out.push(Val::Int(1)),
                 | Ty::Int => out.extend([Val::Int(1), Val::Int(2)]),
                 | Ty::Two => out.extend([Val::A, Val::B]),
                 | _ => {}
@@ -964,9 +1148,14 @@ impl Gen {
                     out.push(Val::VTLam(y, Box::new(body)));
                 }
             }
+            | Ty::Named(l, a) if self.rec => {
+                for v in self.vals(s, &a, n - 1) {
+                    out.push(Val::Named(l, Box::new(v)));
+                }
+            }
             | Ty::Ex(x, b) => {
                 // a package is only generated directly under an annotated let (see cmps)
-                if self.omega && allow_pack {
+                if (self.omega || self.rec) && allow_pack {
                     for w in self.insts(s) {
                         for payload in self.vals(s, &subst_t(&b, x, &w), n - 1) {
                             out.push(Val::Pack(w.clone(), Box::new(payload)));
@@ -975,6 +1164,21 @@ impl Gen {
                 }
             }
             | _ => {}
+        }
+        if self.rec && n == 2 {
+            // projection of a uniquely named field of a record variable
+            for (x, vt) in s.vars.iter() {
+                if matches!(expand_t(vt), Ty::Ex(..)) || !self.vars_of(s, vt).contains(x) {
+                    continue;
+                }
+                for l in 0..LABELS.len() as u8 {
+                    if let [(route, payload)] = find_field(vt, l).as_slice() {
+                        if teq(payload, t) {
+                            out.push(Val::Proj(Box::new(Val::Var(*x)), l, route.clone()));
+                        }
+                    }
+                }
+            }
         }
         if self.vfun && n >= 3 {
             // value-level eliminations of variables of function / universal value types
@@ -1073,7 +1277,44 @@ impl Gen {
                 self.spine(s, Cmp::Force(Val::Var(*x)), &c, t, n - 2, &mut out);
             }
         }
-        if self.omega && n >= 4 {
+        if self.rec && n >= 4 {
+            // groups of projection patterns on a record / package held in a variable
+            for (x, vt) in s.vars.iter() {
+                if !self.vars_of(s, vt).contains(x) {
+                    continue;
+                }
+                let exp = expand_t(vt);
+                let mut witnesses: Vec<Option<(TV, TV)>> = vec![None];
+                if let Ty::Ex(z, _) = &exp {
+                    witnesses.push(Some((*z, Self::fresh_tv(s))));
+                }
+                for w in witnesses {
+                    let Ok((s2, body_ty, _)) = open_scope(s, &w, vt) else { continue };
+                    let avail: Vec<(u8, Vec<bool>, Ty)> = (0..LABELS.len() as u8).filter_map(|l| match find_field(&body_ty, l).as_slice() { | [(r, p)] => Some((l, r.clone(), p.clone())), | _ => None }).collect();
+                    if avail.is_empty() {
+                        continue;
+                    }
+                    // every non-empty subset in label order, and the full set reversed
+                    let mut groups: Vec<Vec<usize>> = (1..(1usize << avail.len())).map(|m| (0..avail.len()).filter(|i| m >> i & 1 == 1).collect()).collect();
+                    if avail.len() >= 2 {
+                        groups.push((0..avail.len()).rev().collect());
+                    }
+                    for g in groups {
+                        let mut s3 = s2.clone();
+                        let mut fields = vec![];
+                        for i in &g {
+                            let y = Self::fresh_var(&s3);
+                            s3 = s3.with_var(y, avail[*i].2.clone());
+                            fields.push((avail[*i].0, avail[*i].1.clone(), y));
+                        }
+                        for body in self.cmps(&s3, t, n - 2) {
+                            out.push(Cmp::Open(w, fields.clone(), Val::Var(*x), Box::new(body)));
+                        }
+                    }
+                }
+            }
+        }
+        if (self.omega || self.rec) && n >= 4 {
             // open a package / split a pair held in a variable
             for (x, vt) in s.vars.iter() {
                 if !self.vars_of(s, vt).contains(x) {
@@ -1173,11 +1414,12 @@ fn is_poly(c: &Cmp) -> bool {
             | Val::Thunk(c) => is_poly(c),
             | Val::Pack(..) | Val::VLam(..) | Val::VApp(..) | Val::VTLam(..) | Val::VTApp(..) => true,
             | Val::Pair(a, b) => v(a) || v(b),
+            | Val::Named(..) | Val::Proj(..) => true,
             | _ => false,
         }
     }
     match c {
-        | Cmp::TFn(..) | Cmp::TApp(..) => true,
+        | Cmp::TFn(..) | Cmp::TApp(..) | Cmp::Open(..) => true,
         | Cmp::Ret(x) | Cmp::Force(x) => v(x),
         | Cmp::Do(_, _, a, b) | Cmp::Match(_, a, b) => is_poly(a) || is_poly(b),
         | Cmp::Fn(_, _, b) => is_poly(b),
@@ -1207,7 +1449,7 @@ fn wrap(alias: usize, body: Cmp) -> Cmp {
 
 /// the F-omega part: existential packages, a type operator, pairs
 pub fn universe_omega(tier: Tier) -> Vec<Cmp> {
-    let g = Gen { max_vars_per_type: 2, omega: true, vfun: false, pack_ok: std::cell::Cell::new(false) };
+    let g = Gen { max_vars_per_type: 2, omega: true, vfun: false, rec: false, rec_box: false, pack_ok: std::cell::Cell::new(false) };
     let n = if tier == Tier::Thorough { 15 } else { 13 };
     let mut out = vec![];
     for root in [ret(Ty::Int), ret(Ty::Two)] {
@@ -1224,7 +1466,7 @@ pub fn universe_omega(tier: Tier) -> Vec<Cmp> {
 
 /// the value-function part: pure functions as values
 pub fn universe_vfun(tier: Tier) -> Vec<Cmp> {
-    let g = Gen { max_vars_per_type: 2, omega: false, vfun: true, pack_ok: std::cell::Cell::new(false) };
+    let g = Gen { max_vars_per_type: 2, omega: false, vfun: true, rec: false, rec_box: false, pack_ok: std::cell::Cell::new(false) };
     let n = if tier == Tier::Thorough { 13 } else { 12 };
     let mut out = vec![];
     for root in [ret(Ty::Int), ret(Ty::Two)] {
@@ -1233,6 +1475,29 @@ pub fn universe_vfun(tier: Tier) -> Vec<Cmp> {
         }
     }
     out
+}
+
+/// the record part: named components, projections, groups of projection patterns
+pub fn universe_rec(tier: Tier) -> Vec<Cmp> {
+    let mut out = vec![];
+    // the whole menu up to a small size, then the package type alone up to a size that reaches
+    // introduction + opening + use of both fields
+    for (rec_box, n) in [(false, if tier == Tier::Thorough { 15 } else { 14 }), (true, if tier == Tier::Thorough { 18 } else { 17 })] {
+        let g = Gen { max_vars_per_type: 2, omega: false, vfun: false, rec: true, rec_box, pack_ok: std::cell::Cell::new(false) };
+        for root in [ret(Ty::Int), ret(Ty::Two)] {
+            for k in 2..=n {
+                out.extend(g.cmps(&Scope::default(), &root, k).into_iter().filter(uses_rec));
+            }
+        }
+    }
+    out.sort_by_key(|c| format!("{:?}", c));
+    out.dedup();
+    out
+}
+
+fn uses_rec(c: &Cmp) -> bool {
+    let d = format!("{:?}", c);
+    d.contains("Named(") || d.contains("Proj(") || d.contains("Open(")
 }
 
 fn uses_vfun(c: &Cmp) -> bool {
@@ -1246,7 +1511,7 @@ fn uses_omega(c: &Cmp) -> bool {
 }
 
 pub fn universe(tier: Tier) -> Vec<Cmp> {
-    let g = Gen { max_vars_per_type: 2, omega: false, vfun: false, pack_ok: std::cell::Cell::new(false) };
+    let g = Gen { max_vars_per_type: 2, omega: false, vfun: false, rec: false, rec_box: false, pack_ok: std::cell::Cell::new(false) };
     let (n_plain, n_id, n_cps) = if tier == Tier::Thorough { (17, 15, 14) } else { (15, 13, 12) };
     let mut out = vec![];
     for root in [ret(Ty::Int), ret(Ty::Two)] {
@@ -1261,6 +1526,7 @@ pub fn universe(tier: Tier) -> Vec<Cmp> {
     }
     out.extend(universe_omega(tier));
     out.extend(universe_vfun(tier));
+    out.extend(universe_rec(tier));
     out
 }
 
@@ -1270,7 +1536,7 @@ pub fn universe(tier: Tier) -> Vec<Cmp> {
 /// replacing a type argument by another candidate; replacing a `let` annotation by another menu
 /// entry; replacing a parameter annotation by another candidate type
 pub fn mutants(c: &Cmp) -> Vec<(String, Cmp)> {
-    let g = Gen { max_vars_per_type: 99, omega: uses_omega(c), vfun: uses_vfun(c), pack_ok: std::cell::Cell::new(false) };
+    let g = Gen { max_vars_per_type: 99, omega: uses_omega(c), vfun: uses_vfun(c), rec: uses_rec(c), rec_box: false, pack_ok: std::cell::Cell::new(false) };
     let mut out = vec![];
     fn go_v(g: &Gen, s: &Scope, v: &Val, rebuild: &dyn Fn(Val) -> Cmp, out: &mut Vec<(String, Cmp)>) {
         match v {
@@ -1316,6 +1582,25 @@ pub fn mutants(c: &Cmp) -> Vec<(String, Cmp)> {
                     }
                 }
                 go_v(g, s, f, &|f2| rebuild(Val::VTApp(Box::new(f2), t.clone())), out);
+            }
+            | Val::Named(l, a) => {
+                for l2 in 0..LABELS.len() as u8 {
+                    if l2 != *l {
+                        out.push((format!("field label {} replaced by {} (introduction)", LABELS[*l as usize], LABELS[l2 as usize]), rebuild(Val::Named(l2, a.clone()))));
+                    }
+                }
+                go_v(g, s, a, &|a2| rebuild(Val::Named(*l, Box::new(a2))), out);
+            }
+            | Val::Proj(a, l, _) => {
+                for l2 in 0..LABELS.len() as u8 {
+                    if l2 != *l {
+                        let route = match synth_v(s, a).map(|t| find_field(&t, l2)) {
+                            | Ok(found) if found.len() == 1 => found[0].0.clone(),
+                            | _ => vec![],
+                        };
+                        out.push((format!("field label {} replaced by {} (projection)", LABELS[*l as usize], LABELS[l2 as usize]), rebuild(Val::Proj(a.clone(), l2, route))));
+                    }
+                }
             }
             | _ => {}
         }
@@ -1384,6 +1669,40 @@ pub fn mutants(c: &Cmp) -> Vec<(String, Cmp)> {
                     go_c(g, &s2, b, &|b2| rebuild(Cmp::LetPair(*x, *y, v.clone(), Box::new(b2))), out);
                 }
             }
+            | Cmp::Open(w, fields, p, b) => {
+                // let a selected field escape through the result
+                for (_, _, x) in fields {
+                    out.push((format!("occurrence: body of the opening that binds v{x} replaced by `ret v{x}`"), rebuild(Cmp::Open(*w, fields.clone(), p.clone(), Box::new(Cmp::Ret(Val::Var(*x)))))));
+                }
+                // the witness is no longer selected
+                if w.is_some() {
+                    out.push(("type argument: the witness of the package is no longer selected".to_string(), rebuild(Cmp::Open(None, fields.clone(), p.clone(), b.clone()))));
+                }
+                let Ok(pt) = synth_v(s, p) else { return };
+                let Ok((s2, body_ty, _)) = open_scope(s, w, &pt) else { return };
+                // another label
+                for (k, (l, _, x)) in fields.iter().enumerate() {
+                    for l2 in 0..LABELS.len() as u8 {
+                        if l2 != *l {
+                            let route = match find_field(&body_ty, l2).as_slice() {
+                                | [(r, _)] => r.clone(),
+                                | _ => vec![],
+                            };
+                            let mut f2 = fields.clone();
+                            f2[k] = (l2, route, *x);
+                            out.push((format!("field label {} replaced by {} (projection pattern)", LABELS[*l as usize], LABELS[l2 as usize]), rebuild(Cmp::Open(*w, f2, p.clone(), b.clone()))));
+                        }
+                    }
+                }
+                let mut s3 = s2;
+                for (l, _, x) in fields {
+                    match find_field(&body_ty, *l).as_slice() {
+                        | [(_, payload)] => s3 = s3.with_var(*x, payload.clone()),
+                        | _ => return,
+                    }
+                }
+                go_c(g, &s3, b, &|b2| rebuild(Cmp::Open(*w, fields.clone(), p.clone(), Box::new(b2))), out);
+            }
         }
     }
     go_c(&g, &Scope::default(), c, &|c2| c2, &mut out);
@@ -1399,6 +1718,7 @@ fn same_alias_nested(c: &Cmp) -> bool {
             | Val::Pair(a, b) => v(a, open) || v(b, open),
             | Val::Pack(_, p) | Val::VLam(_, _, p) | Val::VTLam(_, p) | Val::VTApp(p, _) => v(p, open),
             | Val::VApp(f, a) => v(f, open) || v(a, open),
+            | Val::Named(_, p) | Val::Proj(p, _, _) => v(p, open),
             | _ => false,
         }
     }
@@ -1425,7 +1745,7 @@ fn same_alias_nested(c: &Cmp) -> bool {
             | Cmp::Fn(_, _, b) | Cmp::TFn(_, b) => go(b, open),
             | Cmp::App(f, x) => go(f, open) || v(x, open),
             | Cmp::TApp(f, _) => go(f, open),
-            | Cmp::Unpack(_, _, x, b) | Cmp::LetPair(_, _, x, b) => v(x, open) || go(b, open),
+            | Cmp::Unpack(_, _, x, b) | Cmp::LetPair(_, _, x, b) | Cmp::Open(_, _, x, b) => v(x, open) || go(b, open),
         }
     }
     go(c, &vec![])
@@ -1498,6 +1818,9 @@ impl Check for PolyUniverse {
             let mut candidates: Vec<(String, Cmp, bool)> = vec![("original".into(), p.clone(), true)];
             for (d, m) in if prop == "C07" { vec![] } else { mutants(p) } {
                 match synth_c(&Scope::default(), &m) {
+                    // the pattern syntax of unpacking and of pairs is shared (`let (X, y) = pair`, `let (x, y) =
+                    // package`): this AST cannot say so, the mutant is not classified
+                    | Err(e) if e.starts_with("UNCLASSIFIED") => r = r.count("mutants_not_classified", 1),
                     | Err(_) => candidates.push((d, m, false)),
                     // still well typed at a returning type: just another program
                     | Ok(t) if matches!(expand(&t), CTy::Ret(_)) => candidates.push((d, m, true)),
@@ -1588,7 +1911,9 @@ impl Check for PolyUniverse {
 }
 
 fn mutation_kind(desc: &str) -> &'static str {
-    if desc.starts_with("occurrence: body") {
+    if desc.starts_with("field label") {
+        "field label replaced"
+    } else if desc.starts_with("occurrence: body") {
         "abstract type escapes its unpacking"
     } else if desc.starts_with("occurrence") {
         "variable occurrence replaced"
